@@ -278,6 +278,48 @@ func c07Run(c *core.Ctx) {
 		b.add(lit)
 	}
 	b.flush()
+
+	// literals next to operators: every first character of the literal body after every operator (the
+	// printer inserts separators between tokens; none may end up inside or change a literal)
+	b = B("operator-adjacent")
+	ops := []string{"+", "-", "*", "/", "%", "==", "!=", "<", ">", "<=", ">=", "&&", "||"}
+	for _, q := range []string{"'", "\"", "`"} {
+		for ch := 0x20; ch < 0x7f; ch++ {
+			if ch == '\\' || string(rune(ch)) == q || (q == "`" && ch == '$') {
+				continue
+			}
+			body := string(rune(ch)) + "2"
+			for _, op := range ops {
+				b.add(q + "1" + q + " " + op + " " + q + body + q)
+			}
+			b.add("- " + q + body + q)
+			b.add("! " + q + body + q)
+			b.add("- - " + q + body + q)
+			b.add("[" + q + body + q + ", -" + q + body + q + "][1]")
+		}
+	}
+	b.flush()
+
+	// literal interplay: a literal that contains quote characters, comment markers or escapes, followed by a
+	// multi-line literal whose lines end in blanks (line-oriented post-processing of the output must not be
+	// thrown off by the first and damage the second)
+	b = B("literal-interplay")
+	first := []string{"`http://x`", "`a\\`b`", "\"//\"", "'\"'", "\"'\"", "'`'", "`\"`", "`'`", "\"\\\\\"", "`\\\\`", "'a\\'b'", "`${`}`", "\"a\\\"b\"", "'//'", "`// `"}
+	second := []string{"`p  \n  q  \n`", "`  \n\nz`", "`k \n`", "`\t \n \t`"}
+	for _, f := range first {
+		for _, sec := range second {
+			b.add(f + " + " + sec)
+			b.add(sec + " + " + f + " + " + sec)
+			b.add("[" + f + ", " + sec + "][1]")
+			// on different lines of the output
+			b.add("(function() { let u = " + f + "; return " + sec + " })()")
+			b.add("(function() { let u = " + f + "; let v = " + f + "; return u + " + sec + " })()")
+			for _, f2 := range first {
+				b.add(f + " + " + f2 + " + " + sec)
+			}
+		}
+	}
+	b.flush()
 }
 
 func c07Replay(pl json.RawMessage) (string, []core.Violation) {
